@@ -136,6 +136,7 @@ class Parser:
         items = []
         item_pub = False
         first = True
+        pending_attrs = []
         while True:
             if not first:
                 pass
@@ -148,7 +149,9 @@ class Parser:
             if v != 'pub' and self.t[self.i - 1][1] != 'pub' if self.i > 0 else True:
                 item_pub = False
             if v == '#':
+                a0 = self.i
                 self.skip_attr()
+                pending_attrs.append(' '.join(x[1] for x in self.t[a0:self.i]))
             elif v == 'pub':
                 self.next()
                 item_pub = True
@@ -157,13 +160,15 @@ class Parser:
                     item_pub = False
                 continue
             elif v == 'impl':
+                pending_attrs = []
                 items.append(self.parse_impl())
             elif v == 'fn':
                 items.append(self.parse_fn() + (item_pub,))
             elif v == 'macro_rules':
                 items.append(self.parse_macro_rules())
             elif v == 'struct':
-                items.append(self.parse_struct())
+                items.append(self.parse_struct() + (list(pending_attrs),))
+                pending_attrs = []
             elif v == 'const' and self.peek(1)[0] == 'id' and self.peek(2)[1] == ':':
                 items.append(self.parse_const())
             elif tok[0] == 'id' and self.peek(1)[1] == '!' and self.peek(2)[1] == '(':
